@@ -1,7 +1,9 @@
 """C15 — ring buffer never hands out overlapping memory, in every interleaving."""
 import os
-from lib.core import Case
+from lib import core
+from lib.core import Case, GenError, write_if_changed
 from lib import cbuild
+from gen import ring_gen, cfun
 
 ID = "C15"
 LEAN_MODULES = ["AwsVerif.Props.C15"]
@@ -14,11 +16,21 @@ HARNESS = dict(
                  ["-include", os.path.join(cbuild.VERIF, "harness", "verif_atomics.h"), "-DUSE_SIMD_ENCODING"], "ring_buffer_sched")],
 )
 TRUSTED = ["hand model lean/AwsVerif/Model/Ring.lean (tied by this correspondence run only)",
+           "translator gen/ring_gen.py for aws_ring_buffer_is_valid / aws_ring_buffer_check_atomic_ptr (regenerated from ring_buffer.inl every run)",
            "harness/verif_atomics.h: force-included macros turning __atomic_* builtins into schedule points"]
 ASSUMPTIONS = ["atomics are sequentially consistent (x86-64); one acquirer thread, one releaser releasing in acquisition order",
                "minimum_size <= requested_size for acquire_up_to (API precondition)"]
 RULE = ("op sequences over one ring (sizes 1..64): acq/upto with k releases injected between the acquirer's tail load "
         "and head load, rel; non-trivial = at least one successful acquire while >=1 buffer outstanding and one wrap or injected release")
+
+
+def regen(ctx):
+    """the validity predicate of ring_buffer.inl -> lean/AwsVerif/Gen/RingValid.lean (c15_is_valid_holds is about it)"""
+    try:
+        text = ring_gen.generate(cbuild.REPO, cbuild.config_include())
+    except cfun.GenError as e:
+        raise GenError(str(e))
+    write_if_changed(os.path.join(core.LEAN, "AwsVerif", "Gen", "RingValid.lean"), text)
 
 
 def _sizes(rng, n):
@@ -94,8 +106,13 @@ def oracle(case, lines):
         return l
     for op in case.ops:
         t = op.split()
+        def valid_line():
+            l = nxt()
+            if l != "P valid=1":
+                errs.append(f"{op}: aws_ring_buffer_is_valid() does not hold in this reachable state: `{l}`")
         if t[0] == "init":
             n = int(t[1]); out = []
+            valid_line()
             continue
         if t[0] == "rel":
             if out:
@@ -103,6 +120,7 @@ def oracle(case, lines):
             l = nxt()
             if l != f"P outstanding={len(out)}":
                 errs.append(f"outstanding count after rel: {l}")
+            valid_line()
             continue
         if n is None:
             return []
@@ -150,7 +168,64 @@ def oracle(case, lines):
         l = nxt()
         if l != f"P outstanding={len(out)}":
             errs.append(f"outstanding count: {l} expected {len(out)}")
+        valid_line()
     return errs
+
+
+def _debug_cases(rng):
+    """slice for the DEBUG_BUILD flavour (the library's own pre/post-conditions active): no injected releases, because
+    the assertions add atomic loads that shift the injection points; boundary-heavy sizes (full-capacity grants)"""
+    cases = []
+    for c in exhaustive_cases(2, 2) + exhaustive_cases(3, 2) + [gen_case(rng, 30) for _ in range(600)]:
+        ops = []
+        for o in c.ops:
+            t = o.split()
+            if t[0] in ("acq", "upto"):
+                t[1], t[2] = "0", "0"
+            ops.append(" ".join(t))
+        cases.append(Case(ops, dict(c.tags, debug_build=True)))
+    for n in (1, 2, 5, 8, 64):
+        cases.append(Case([f"init {n}", f"acq 0 0 {n}", "rel", f"acq 0 0 {n}", "rel", f"upto 0 0 1 {n + 1}", "rel", "acq 0 0 1"],
+                          {"n": n, "debug_build": True}))
+    return cases
+
+
+def extra_stages(ctx):
+    """second flavour: ring_buffer.c (and the library) compiled with -DDEBUG_BUILD, so AWS_PRECONDITION / AWS_POSTCONDITION
+    (aws_ring_buffer_is_valid before and after every call) abort on a state the library itself calls invalid"""
+    if ctx.replay:
+        return
+    try:
+        exe = cbuild.build_harness(**dict(HARNESS, flavour="debug"))
+    except cbuild.BuildError as e:
+        ctx.machinery_broken("debug-flavour build: " + str(e)[:2000])
+        return
+    cases = _debug_cases(ctx.rng)
+    c_out, _, crashes = core.run_both(ctx, cases, exe, None, timeout=300)
+    ctx.cov["debug_build_cases"] = len(cases)
+    ctx.cov["evaluations"] += len(cases)
+    reported = 0
+    for i, case in enumerate(cases):
+        if reported >= 3:
+            break
+        if i in crashes:
+            def sf(cand):
+                _, _, cr = core.run_both(ctx, [cand], exe, None, jobs=1, timeout=60)
+                return 0 in cr
+            small = core.minimise(ctx, case, exe, None, sf, 10)
+            _, _, cr = core.run_both(ctx, [small], exe, None, jobs=1, timeout=60)
+            ctx.violation(f"debugbuild-crash-{ctx.seed}-{i}",
+                          {"ops": small.ops, "tags": small.tags, "flavour": "debug (-DDEBUG_BUILD)",
+                           "observed": (cr.get(0) or crashes[i])[-2500:]},
+                          "DEBUG_BUILD library aborted (its own pre/post-condition failed) on a legal call sequence")
+            reported += 1
+            continue
+        errs = oracle(case, c_out.get(i, []))
+        if errs:
+            ctx.violation(f"debugbuild-oracle-{ctx.seed}-{i}", {"ops": case.ops, "tags": case.tags, "clause": errs[:5],
+                                                              "flavour": "debug (-DDEBUG_BUILD)"},
+                          "direct oracle (DEBUG_BUILD flavour): " + errs[0])
+            reported += 1
 
 
 def nontrivial(case):
